@@ -845,6 +845,166 @@ fn gen_cyc(rng: &mut Rng, auto_bias: bool, mixed: bool) -> GenOut {
     GenOut { prog, goals }
 }
 
+/// Directed families over their own items (names `P2`, `N1`, `K0..`, `Lat`, `Mk`, `Reach`, `Small`, `Top`, `Grow`,
+/// `Aux`), appended to a generated world. Each is one of the engines' core duties in its smallest form:
+///  * Lattice — several impls of one trait on a binary constructor whose header arguments are constants or
+///    parameters; goals ask for the whole self type or for one argument: the aggregated guidance must be exactly
+///    the anti-unifier of all answers (SLG `merge_into_guidance` / `MayInvalidate`, recursive `Solution::combine`);
+///    ground where-clauses delay some strands so that answer arrival order differs from declaration order.
+///  * Chain — a recursive table that has to produce its 3rd, 4th.. answer: base fact + recursive impl (optionally
+///    bounded by a guard trait), a marker at depth k, goals `exists<X> { X: Reach, X: Top }` in both orders.
+///  * Grow — a where-clause that grows its own header (`impl<T> Grow for N1<T> where N1<N1<T>>: Grow, T: Aux`): no
+///    finite derivation, so the only correct answers are "no solution" or, at the size limit, Ambiguous; the other
+///    where-clauses come before or after the growing one.
+fn plant_templates(rng: &mut Rng, prog: &mut Prog, goals: &mut Vec<Goal>) {
+    let k = |i: usize| Ty::Adt(format!("K{}", i), vec![]);
+    let var = |n: &str| Ty::Var(n.to_string());
+    let pr = |ty: Ty, t: &str| Pred { ty, tr: t.to_string(), args: vec![] };
+    let ex = |vs: &[&str], g: Goal| Goal::Exists(vs.iter().map(|s| s.to_string()).collect(), Box::new(g));
+    let nk = rng.range(2, 4);
+    for i in 0..nk {
+        prog.items.push(Item::Adt(AdtDecl { name: format!("K{}", i), params: vec![], fields: vec![] }));
+    }
+    prog.items.push(Item::Adt(AdtDecl { name: "N1".into(), params: vec!["T0".into()], fields: vec![] }));
+    prog.items.push(Item::Trait(TraitDecl { name: "Mk".into(), params: vec![], kind: TraitKind::Ind, wcs: vec![] }));
+    let mut mk_holds = vec![];
+    for i in 0..nk {
+        if i == 0 || rng.coin(60) {
+            mk_holds.push(i);
+            prog.items.push(Item::Impl(ImplDecl { params: vec![], tr: "Mk".into(), args: vec![], self_ty: k(i), wcs: vec![], positive: true }));
+        }
+    }
+    let which = rng.below(10);
+    if which < 5 {
+        // ---- Lattice
+        prog.items.push(Item::Adt(AdtDecl { name: "P2".into(), params: vec!["T0".into(), "T1".into()], fields: vec![] }));
+        prog.items.push(Item::Trait(TraitDecl { name: "Lat".into(), params: vec![], kind: TraitKind::Ind, wcs: vec![] }));
+        let disjoint = rng.coin(50);
+        let mut heads: Vec<(Ty, Ty)> = vec![];
+        let n = rng.range(2, 4);
+        let mut tries = 0;
+        while heads.len() < n && tries < 40 {
+            tries += 1;
+            let arg = |rng: &mut Rng, name: &str| -> Ty {
+                match rng.below(10) {
+                    0..=2 => Ty::Var(name.to_string()),
+                    3 => Ty::Adt("N1".into(), vec![if rng.coin(50) { Ty::Var(name.to_string()) } else { Ty::Adt(format!("K{}", rng.below(nk)), vec![]) }]),
+                    _ => Ty::Adt(format!("K{}", rng.below(nk)), vec![]),
+                }
+            };
+            let h = (arg(rng, "T0"), arg(rng, "T1"));
+            if heads.contains(&h) {
+                continue;
+            }
+            if disjoint {
+                let clash = heads.iter().any(|o| {
+                    let ren = |t: &Ty, s: &str| {
+                        let mut vs = vec![];
+                        t.vars(&mut vs);
+                        let m: BTreeMap<String, Ty> = vs.into_iter().map(|v| (v.clone(), Ty::Var(format!("{}{}", v, s)))).collect();
+                        t.subst(&m)
+                    };
+                    let mut m = BTreeMap::new();
+                    unify_ty(&ren(&o.0, "'a"), &ren(&h.0, "'b"), &mut m) && unify_ty(&ren(&o.1, "'a"), &ren(&h.1, "'b"), &mut m)
+                });
+                if clash {
+                    continue;
+                }
+            }
+            heads.push(h);
+        }
+        for (a, b) in &heads {
+            let self_ty = Ty::Adt("P2".into(), vec![a.clone(), b.clone()]);
+            let mut params = vec![];
+            self_ty.vars(&mut params);
+            params.sort();
+            params.dedup();
+            let mut wcs = vec![];
+            for q in &params {
+                if rng.coin(50) {
+                    wcs.push(pr(var(q), "Mk"));
+                }
+            }
+            if rng.coin(40) {
+                // a ground where-clause that holds: the strand answers later than a plain fact
+                wcs.push(pr(k(*rng.pick(&mk_holds)), "Mk"));
+            }
+            rng.shuffle(&mut wcs);
+            prog.items.push(Item::Impl(ImplDecl { params, tr: "Lat".into(), args: vec![], self_ty, wcs, positive: true }));
+        }
+        let p2 = |a: Ty, b: Ty| Ty::Adt("P2".into(), vec![a, b]);
+        goals.push(ex(&["X"], Goal::Pred(pr(var("X"), "Lat"))));
+        goals.push(ex(&["X", "Y"], Goal::Pred(pr(p2(var("X"), var("Y")), "Lat"))));
+        goals.push(ex(&["X"], Goal::Pred(pr(p2(var("X"), k(rng.below(nk))), "Lat"))));
+        goals.push(ex(&["X"], Goal::Pred(pr(p2(k(rng.below(nk)), var("X")), "Lat"))));
+        goals.push(Goal::Pred(pr(p2(k(rng.below(nk)), k(rng.below(nk))), "Lat")));
+    } else if which < 8 {
+        // ---- Chain
+        let n1 = |t: Ty| Ty::Adt("N1".into(), vec![t]);
+        let nest = |d: usize| {
+            let mut t = k(0);
+            for _ in 0..d {
+                t = n1(t);
+            }
+            t
+        };
+        for t in ["Reach", "Top"] {
+            prog.items.push(Item::Trait(TraitDecl { name: t.into(), params: vec![], kind: TraitKind::Ind, wcs: vec![] }));
+        }
+        prog.items.push(Item::Impl(ImplDecl { params: vec![], tr: "Reach".into(), args: vec![], self_ty: k(0), wcs: vec![], positive: true }));
+        let guarded = rng.coin(60);
+        let via = rng.coin(30);
+        let mut wcs = vec![pr(var("T0"), if via { "Step" } else { "Reach" })];
+        if guarded {
+            let bound = rng.range(1, 3);
+            prog.items.push(Item::Trait(TraitDecl { name: "Small".into(), params: vec![], kind: TraitKind::Ind, wcs: vec![] }));
+            for d in 0..=bound {
+                prog.items.push(Item::Impl(ImplDecl { params: vec![], tr: "Small".into(), args: vec![], self_ty: nest(d), wcs: vec![], positive: true }));
+            }
+            wcs.push(pr(var("T0"), "Small"));
+            rng.shuffle(&mut wcs);
+        }
+        if via {
+            // the recursion goes through a second trait: the enumerated table is on the stack but not on top of it
+            prog.items.push(Item::Trait(TraitDecl { name: "Step".into(), params: vec![], kind: TraitKind::Ind, wcs: vec![] }));
+            prog.items.push(Item::Impl(ImplDecl { params: vec!["T0".into()], tr: "Step".into(), args: vec![], self_ty: var("T0"), wcs: vec![pr(var("T0"), "Reach")], positive: true }));
+        }
+        prog.items.push(Item::Impl(ImplDecl { params: vec!["T0".into()], tr: "Reach".into(), args: vec![], self_ty: n1(var("T0")), wcs, positive: true }));
+        let depth = rng.range(1, 4);
+        prog.items.push(Item::Impl(ImplDecl { params: vec![], tr: "Top".into(), args: vec![], self_ty: nest(depth), wcs: vec![], positive: true }));
+        let (a, b) = (Goal::Pred(pr(var("X"), "Reach")), Goal::Pred(pr(var("X"), "Top")));
+        goals.push(ex(&["X"], Goal::And(vec![a.clone(), b.clone()])));
+        goals.push(ex(&["X"], Goal::And(vec![b, a.clone()])));
+        goals.push(Goal::Pred(pr(nest(depth), "Reach")));
+        goals.push(Goal::Pred(pr(nest(depth + 1), "Reach")));
+        if guarded {
+            goals.push(ex(&["X"], a));
+        }
+    } else {
+        // ---- Grow
+        let n1 = |t: Ty| Ty::Adt("N1".into(), vec![t]);
+        for t in ["Grow", "Aux"] {
+            prog.items.push(Item::Trait(TraitDecl { name: t.into(), params: vec![], kind: TraitKind::Ind, wcs: vec![] }));
+        }
+        prog.items.push(Item::Impl(ImplDecl { params: vec![], tr: "Aux".into(), args: vec![], self_ty: k(0), wcs: vec![], positive: true }));
+        prog.items.push(Item::Impl(ImplDecl { params: vec!["T0".into()], tr: "Aux".into(), args: vec![], self_ty: n1(var("T0")), wcs: vec![pr(var("T0"), "Aux")], positive: true }));
+        let mut wcs = vec![pr(n1(n1(var("T0"))), "Grow")];
+        for _ in 0..rng.range(0, 2) {
+            wcs.push(pr(var("T0"), if rng.coin(70) { "Aux" } else { "Mk" }));
+        }
+        wcs.dedup();
+        rng.shuffle(&mut wcs);
+        prog.items.push(Item::Impl(ImplDecl { params: vec!["T0".into()], tr: "Grow".into(), args: vec![], self_ty: n1(var("T0")), wcs, positive: true }));
+        if rng.coin(30) {
+            prog.items.push(Item::Impl(ImplDecl { params: vec![], tr: "Grow".into(), args: vec![], self_ty: k(0), wcs: vec![], positive: true }));
+        }
+        goals.push(Goal::Pred(pr(n1(k(0)), "Grow")));
+        goals.push(Goal::Pred(pr(n1(n1(k(0))), "Grow")));
+        goals.push(Goal::Forall(vec!["F0".into()], Box::new(Goal::If(vec![pr(var("F0"), "Aux")], Box::new(Goal::Pred(pr(n1(var("F0")), "Grow")))))));
+        goals.push(Goal::And(vec![Goal::Pred(pr(k(0), "Aux")), Goal::Pred(pr(n1(k(0)), "Grow"))]));
+    }
+}
+
 pub fn gen(rng: &mut Rng, profile: Profile) -> GenOut {
     if profile == Profile::Cyc || profile == Profile::CycAuto || profile == Profile::CycMixed {
         return gen_cyc(rng, profile == Profile::CycAuto, profile == Profile::CycMixed);
@@ -1072,6 +1232,9 @@ pub fn gen(rng: &mut Rng, profile: Profile) -> GenOut {
         let closed = !enu && (coind || gi < ng * 2 / 3 || hyp && gi < ng - 1);
         goals.push(gen_goal(rng, &prog, &ar, &trait_info, closed, profile));
     }
+    if !wild && !coind && (enu && rng.coin(60) || !enu && rng.coin(12)) {
+        plant_templates(rng, &mut prog, &mut goals);
+    }
     GenOut { prog, goals }
 }
 
@@ -1224,7 +1387,7 @@ fn gen_goal(rng: &mut Rng, prog: &Prog, ar: &[(String, usize)], traits: &[(Strin
     }
 }
 
-fn unify_ty(a: &Ty, b: &Ty, m: &mut BTreeMap<String, Ty>) -> bool {
+pub fn unify_ty(a: &Ty, b: &Ty, m: &mut BTreeMap<String, Ty>) -> bool {
     fn walk(t: &Ty, m: &BTreeMap<String, Ty>) -> Ty {
         let mut t = t.clone();
         while let Ty::Var(v) = &t {
@@ -1281,6 +1444,33 @@ pub fn has_overlapping_impls(p: &Prog) -> bool {
         }
     }
     false
+}
+
+/// hypotheses of the goal (`if (H) { .. }`), at any depth
+pub fn hyps_of(g: &Goal, out: &mut Vec<Pred>) {
+    match g {
+        Goal::If(hs, b) => {
+            out.extend(hs.iter().cloned());
+            hyps_of(b, out)
+        }
+        Goal::And(v) => v.iter().for_each(|x| hyps_of(x, out)),
+        Goal::Forall(_, b) | Goal::Exists(_, b) | Goal::Not(b) => hyps_of(b, out),
+        Goal::Pred(_) | Goal::Eq(..) => {}
+    }
+}
+
+/// does a hypothesis of the goal have the same trait as a positive impl whose header unifies with it (quantified
+/// names of the goal read as variables)? Then hypothesis and impl are two clauses for the same goals.
+pub fn hyp_overlaps_impl(p: &Prog, g: &Goal) -> bool {
+    let mut hs = vec![];
+    hyps_of(g, &mut hs);
+    hs.iter().any(|h| {
+        p.impls().filter(|im| im.positive && im.tr == h.tr && im.args.len() == h.args.len()).any(|im| {
+            let ren: BTreeMap<String, Ty> = im.params.iter().map(|q| (q.clone(), Ty::Var(format!("{}'i", q)))).collect();
+            let mut m = BTreeMap::new();
+            unify_ty(&im.self_ty.subst(&ren), &h.ty, &mut m) && im.args.iter().zip(h.args.iter()).all(|(x, y)| unify_ty(&x.subst(&ren), y, &mut m))
+        })
+    })
 }
 
 /// does some cycle of the trait dependency graph (trait -> traits named in the where-clauses of its impls) contain
